@@ -138,6 +138,14 @@ def _gen_cvx(rng, a, nx, xstar):
     if rng.random() < 0.2 and m <= nx:
         M = np.eye(nx)[:m]
     params = AT.random_params(rng, a, m)
+    if a == 'power' and rng.random() < 0.35:
+        # a size-1 argument broadcast against arrays of exponents
+        mo = int(rng.integers(2, 4))
+        params = AT.random_params(rng, a, mo)
+        while not isinstance(params['p'], list):
+            params = AT.random_params(rng, a, mo)
+        M = M[:1]
+        m = 1
     v = np.round(rng.uniform(-1, 1, m), 2)
     if info.get('dom') is not None:
         v = np.round(-M @ xstar + rng.uniform(0.4, 1.5, m), 3)
@@ -154,9 +162,10 @@ def _gen_cvx(rng, a, nx, xstar):
         k = -base - slack if curv == 1 else -base + slack
         g_out, k_out = g.tolist(), float(np.round(k, 6))
     else:
-        G = np.round(rng.uniform(-1.5, 1.5, (m, nx)), 2) * (rng.random((m, nx)) < 0.5)
+        mo_ = int(np.size(val))
+        G = np.round(rng.uniform(-1.5, 1.5, (mo_, nx)), 2) * (rng.random((mo_, nx)) < 0.5)
         base = mult * val + G @ xstar
-        slack = np.round(rng.uniform(0.05, 0.8, m), 2)
+        slack = np.round(rng.uniform(0.05, 0.8, mo_), 2)
         k = -base - slack if curv == 1 else -base + slack
         g_out, k_out = G.tolist(), np.round(k, 6).tolist()
     return {'atom': a, 'params': params, 'M': M.tolist(), 'v': v.tolist(), 'mult': mult,
